@@ -25,6 +25,7 @@ type sizeCaseInfo struct {
 	// the load-phase check puts the case in a suite with or without
 	// relies_on_message_receive_limit: expansion must not depend on it
 	LoadSuiteReliesOnLimit bool `json:"load_check_suite_relies_on_limit"`
+	ErrDef                 bool `json:"response_definition_asks_for_error,omitempty"`
 }
 
 const noDirective = int64(-1) << 62
@@ -77,22 +78,40 @@ func genSizeCase(tp *simrt.Tape, name string, thorough bool) (*conformancev1.Tes
 		return nil
 	}
 	respData := []byte("response")
+	// The response definition may ask for an error instead of data: a message over
+	// the limit is answered with resource_exhausted all the same. (Only used in
+	// cases with a message over the limit - below it the error would carry all the
+	// padded requests in its details.)
+	errDef := tp.Bool(1, 4, "errdef")
+	info.ErrDef = errDef
+	unaryDef := func() *conformancev1.UnaryResponseDefinition {
+		if errDef {
+			return &conformancev1.UnaryResponseDefinition{Response: &conformancev1.UnaryResponseDefinition_Error{
+				Error: &conformancev1.Error{Code: conformancev1.Code_CODE_ABORTED, Message: proto.String("asked-for error")}}}
+		}
+		return &conformancev1.UnaryResponseDefinition{Response: &conformancev1.UnaryResponseDefinition_ResponseData{ResponseData: respData}}
+	}
 	var msgs []proto.Message
 	for i := 0; i < nmsg; i++ {
 		switch st {
 		case conformancev1.StreamType_STREAM_TYPE_UNARY:
-			msgs = append(msgs, &conformancev1.UnaryRequest{RequestData: initial(),
-				ResponseDefinition: &conformancev1.UnaryResponseDefinition{Response: &conformancev1.UnaryResponseDefinition_ResponseData{ResponseData: respData}}})
+			msgs = append(msgs, &conformancev1.UnaryRequest{RequestData: initial(), ResponseDefinition: unaryDef()})
 		case conformancev1.StreamType_STREAM_TYPE_CLIENT_STREAM:
 			m := &conformancev1.ClientStreamRequest{RequestData: initial()}
 			if i == 0 {
-				m.ResponseDefinition = &conformancev1.UnaryResponseDefinition{Response: &conformancev1.UnaryResponseDefinition_ResponseData{ResponseData: respData}}
+				m.ResponseDefinition = unaryDef()
 			}
 			msgs = append(msgs, m)
 		default:
 			m := &conformancev1.BidiStreamRequest{RequestData: initial()}
 			if i == 0 {
 				m.ResponseDefinition = &conformancev1.StreamResponseDefinition{ResponseData: [][]byte{respData}}
+				if errDef {
+					m.ResponseDefinition.Error = &conformancev1.Error{Code: conformancev1.Code_CODE_ABORTED, Message: proto.String("asked-for error")}
+					if tp.Bool(1, 2, "errdef.nodata") {
+						m.ResponseDefinition.ResponseData = nil
+					}
+				}
 			}
 			msgs = append(msgs, m)
 		}
@@ -104,7 +123,11 @@ func genSizeCase(tp *simrt.Tape, name string, thorough bool) (*conformancev1.Tes
 		info.BaseSize = append(info.BaseSize, base)
 		last := i == len(msgs)-1
 		var delta int64
-		switch tp.Choose(10, "deltakind") {
+		kind := tp.Choose(10, "deltakind")
+		if errDef && last && !info.OverLim {
+			kind = 4 // see errDef
+		}
+		switch kind {
 		case 0:
 			delta = noDirective
 		case 1, 2, 3:
